@@ -103,6 +103,23 @@ impl<'a> Exec<'a> {
         let who = if on_clone { "clone" } else { "generator" };
         let tail = if let Op::Fill(n) = op { n % 8 } else { 0 };
         let tail_corner = had_half && matches!(op, Op::Fill(n) if *n >= 1 && *n <= 4);
+        if tail_corner && used == 0 {
+            // the recorded corner: the call handed out the pending half without collecting (whatever the
+            // values happen to be - with value-directed starts the pending half can equal the fresh word)
+            if let (Obs::Bytes(got), Op::Fill(n)) = (&obs, op) {
+                let hi = ((self.native[b.k - 1] >> 32) as u32).to_le_bytes();
+                if got[..] == hi[..*n] {
+                    counters.known_corner += 1;
+                    self.ctx.violation(
+                        &format!("C16:fill-tail-reuses-pending-half:n={}", tail),
+                        &format!("rounds {}: after [{}], {} on the {} returned the pending upper half {} reading the timer 0 times; the statement requires a fresh collection", self.rounds, steps_short(hist), op.short(), who, obs.to_json()),
+                        self.replay_json(hist),
+                    );
+                    b.half = false;
+                    return true;
+                }
+            }
+        }
         if obs != e {
             // classify: did the call hand out the pending half instead of collecting?
             let key = if tail_corner && used == 0 {
@@ -257,17 +274,19 @@ pub fn run(reg: &dyn Registry, ctx: &Ctx) -> Outcome {
         let depth = 3;
         let max_words = depth * 2 + 2;
         let readings = jitter_env::benign_readings(ctx.seed ^ 0x16CC ^ ((rounds as u64) << 16), rounds, max_words, 8);
-        for &target in jitter_env::SPECIAL_WORDS.iter() {
-            let Some(p) = jitter_env::solve_pool_for_first_output(reg, &readings, rounds, target) else { continue };
+        let mut pools: Vec<u64> = jitter_env::SPECIAL_WORDS.iter().filter_map(|&t| jitter_env::solve_pool_for_first_output(reg, &readings, rounds, t)).collect();
+        for (_, eqs) in jitter_env::two_word_relations() {
+            if let Some(p) = jitter_env::solve_pool_for_relation(reg, &readings, rounds, &eqs) {
+                pools.push(p);
+                ctx.add("two_word_relation_starts", 1);
+            }
+        }
+        for p in pools {
             let native: Vec<u64> = {
                 let (mut g, _) = jitter_env::jitter_with(reg, readings.clone(), Some(rounds));
                 g.jitter().unwrap().set_pool(p);
                 (0..max_words).map(|_| g.next_u64()).collect()
             };
-            if native[0] != target {
-                ctx.machinery("value-directed pool did not produce the target value");
-                continue;
-            }
             let ex = Exec { ctx, init_pool: Some(p), rounds, per_word: jitter_env::readings_per_word(rounds), native: &native, readings: &readings };
             let n = alphabet.len();
             let count = n.pow(depth as u32);
